@@ -104,6 +104,8 @@ pub struct C14Model {
 fn wcfg() -> WorldCfg {
     let mut c = WorldCfg::default();
     c.oracle_pubkeys = vec![oracle_pub(0)];
+    // two idle channels around the real one in the tracker's listener order (see WorldCfg)
+    c.bystanders = true;
     c
 }
 
